@@ -108,6 +108,11 @@ def cases(tier, inst):
             yield ("roles", t, (X, val))
             yield ("roles", t, (val, X))
             yield ("rolesent", t, val)
+            # ... and is an argument of the inferred instance
+            yield ("rolesctor", t, val)
+        # ... is the argument of a user predicate on the other side, the collection that is concatenated on the other side
+        yield ("rolespred", val, zero)
+        yield ("rolescat", val, zero)
 
     for sel in SELS:
         yield ("sel", sel, None)
@@ -186,6 +191,16 @@ def query_of(case):
         return ("Q", "an", "setof", (X, Y), (case[1],), (VX, VY)), "query"
     if fam == "roles":
         return ("Q", "an", "setof", tuple(case[2]), (case[1],), (VX,)), "query"
+    if fam == "rolesctor":
+        return ("Q", "infer", "entity", ("new", "Made", (), (("a", X), ("b", case[2]))), (case[1],), (VX,)), "rule"
+    if fam == "rolespred":
+        _, val, zero = case
+        return ("Q", "an", "setof", (X,), (("or", ("and", ("t", val), ("cmp", "eq", A(X, "q"), L(9))), ("pf", "val_eq", (val, zero))),),
+                (VX,)), "query"
+    if fam == "rolescat":
+        _, val, zero = case
+        return ("Q", "an", "setof", (Y,), (("or", ("and", ("t", val), ("cmp", "eq", A(X, "q"), L(9))),
+                                             ("in", A(Y, "p"), ("cc", val))),), (VX, VY)), "query"
     if fam == "rolesent":           # the shared expression alone is selected, through entity(...)
         return ("Q", "an", "entity", case[2], (case[1],), (VX,)), "query"
     if fam in ("sel", "flat"):
@@ -247,13 +262,18 @@ def run_case(case, inst):
             got = eval_rows(q, world, inst, predeclare=universals)
             exp = [tuple(ref.value(s, env) for s in q[3]) for env in ref.solutions(q)]
             total = len(world["FA"])
-        elif fam in ("roles", "rolesent"):
+        elif fam in ("roles", "rolesent", "rolesctor", "rolespred", "rolescat"):
             try:
-                obj, b = Q.build(q, world, inst, share_terms="all")
-                got = [tuple(r[s] for s in b.sel[q]) if fam == "roles" else (r,) for r in obj.evaluate()]
+                obj, b = Q.build(q, world, inst, share_terms="all", mode=mode)
+                got = [tuple(r[s] for s in b.sel[q]) if fam in ("roles", "rolespred", "rolescat") else (r,) for r in obj.evaluate()]
             except Exception as e:
                 got = exc_obs(e)
-            exp = [tuple(ref.value(s, env) for s in (q[3] if fam == "roles" else (q[3],))) for env in ref.solutions(q)]
+            if fam == "rolescat":
+                # the concatenated value: the values of the expression over all x, the falsy ones included
+                combined = [ref.value(case[1], {"x": o}) for o in world["FA"]]
+                exp = [(o,) for o in world["FB"] if o.p in combined]
+                return got, exp, len(world["FB"])
+            exp = [tuple(ref.value(s, env) for s in (q[3] if fam in ("roles", "rolespred") else (q[3],))) for env in ref.solutions(q)]
             total = len(world["FA"])
         else:
             got = eval_rows(q, world, inst)
@@ -263,7 +283,7 @@ def run_case(case, inst):
         return got, exp, total
 
     got, exp, total = run_isolated(body)
-    d = diff_rows(got, exp, count=fam in ("cond1", "cond2", "field", "fieldm", "ctor", "flat", "esel", "roles", "rolesent", "fa"))
+    d = diff_rows(got, exp, count=fam in ("cond1", "cond2", "field", "fieldm", "ctor", "flat", "esel", "roles", "rolesent", "rolesctor", "rolespred", "fa"))
     res = {"ok": d is None, "nontrivial": len(exp) > 0 and (total is None or len(exp) < total) if fam != "cond1"
            else 0 < len(exp) < len(FA), "transitions": 1 + (0 if is_exc(got) else len(got)),
            "tags": [f"family={fam}"], "outcome": f"{fam}:{len(exp)}"}
